@@ -24,11 +24,12 @@ U = 1024
 
 
 def gen_cfg(rng):
-    H, W = rng.choice([(64, 64), (64, 96), (96, 64), (80, 96)])
+    H, W = rng.choice([(64, 64), (64, 96), (96, 64), (80, 96), (160, 64), (64, 160)])    # incl. aspect 2.5 both ways: the longest unpenalised edge depends on the LARGER side
     mh, mw = rng.choice([(0, 0), (0, 0), (96, 96), (112, 128), (48, 64), (0, 112)])   # none, larger, smaller than the image, one-sided
     sn, sd = rng.choice([(1, 1), (1, 1), (1, 2)])
     return dict(H=H, W=W, maxH=mh, maxW=mw, sn=sn, sd=sd, ms=rng.choice([8, 16]), s=rng.choice([1, 2, 4]), ps=rng.choice([1, 2, 4]),
-                refine=rng.choice([None, "integral"]), batch=rng.choice([1, 2, 3]), n_nodes=rng.choice([2, 3, 3, 4, 4, 5, 6]))
+                refine=rng.choice([None, "integral"]), batch=rng.choice([1, 2, 3]), n_nodes=rng.choice([2, 3, 3, 4, 4, 5, 6]),
+                long=(rng.random() < 0.3))
 
 
 def random_tree(n, rng):
@@ -51,6 +52,10 @@ def gen_scene(rng, c, edges, n_frames=3):
     cell, pcell = a * c["s"], a * c["ps"]
     in_h, in_w = c["H"] / a, c["W"] / a
     max_edge = 0.25 * max(in_h, in_w) * a * 0.8        # stay clear of the scorer's distance penalty (design)
+    if c.get("long"):
+        # long-limbed animals: edges up to 2.2 x the unpenalised length.  The documented penalty (limit / L - 1 >= -0.55)
+        # lowers the line score of an ideal PAF to >= 0.45, still above min_line_scores = 0.25: they must be reassembled too.
+        max_edge = 0.25 * max(in_h, in_w) * a * 2.2
     min_edge = max(2.5 * pcell, 3.0 * a, 3 * cell)
     if min_edge > max_edge:
         return None
@@ -75,7 +80,8 @@ def gen_scene(rng, c, edges, n_frames=3):
                     v = stack.pop()
                     for w_ in children.get(v, []):
                         for _t in range(20):
-                            L = rng.uniform(min_edge, max_edge)
+                            # a third of the edges are as long as the scorer leaves unpenalised (0.2 of the LARGER side)
+                            L = rng.uniform(max(min_edge, 0.85 * max_edge), max_edge) if rng.random() < 0.35 else rng.uniform(min_edge, max_edge)
                             ang = rng.uniform(0, 2 * math.pi)
                             q = pts[v] + L * np.array([math.cos(ang), math.sin(ang)])
                             if border <= q[0] <= c["W"] - 1 - border and border <= q[1] <= c["H"] - 1 - border and \
@@ -156,7 +162,7 @@ def matching_is_unambiguous(c, edges, animals, a, margin=0.15):
                 S[r, k] = float(np.mean(vals)) + min(max_edge / L - 1.0, 0.0)
         for r, (i, _) in enumerate(src):
             for k, (j, _) in enumerate(dst):
-                if i == j and S[r, k] < 0.6:
+                if i == j and S[r, k] < (0.4 if c.get("long") else 0.6):
                     return False
                 if i != j and S[r, k] > 0.25 - margin and False:
                     return False
@@ -266,7 +272,7 @@ def run(tier, seed, replay_case=None):
     res.clause("cases_scale_half", sum(1 for c in cases if c["cfg"]["sn"] != c["cfg"]["sd"]))
     res.coverage.update(evaluations=len(cases), exhaustive=False,
                         distinct_nontrivial=len({(str(c["full"]), c["provider"], c["frame"], str(c["animals"])) for c in cases if c["animals"]}),
-                        rule="seeded: random tree skeleton (2-6 nodes, shuffled labels and edge listing), 1-5 well-separated animals per frame with 0-2 missing nodes, sizes {64x64,64x96,96x64,80x96}, size matching, input scale {1,1/2}, cms/paf strides {1,2,4}^2, refinement, batch {1,2,3}, both providers; edge lengths between 2.5 PAF cells and 0.2 of the larger side (the scorer's distance penalty applies beyond, by design); 'well-separated' = under the stub's ideal PAF and the documented scoring rule the labelled pairing is the maximum-total assignment by a margin of 0.15 for every edge type (decided by the generator independently of the code; animals are removed from a frame until it holds, counted); non-trivial = frame with at least one animal")
+                        rule="seeded: random tree skeleton (2-6 nodes, shuffled labels and edge listing), 1-5 well-separated animals per frame with 0-2 missing nodes, sizes {64x64,64x96,96x64,80x96,160x64,64x160}, size matching, input scale {1,1/2}, cms/paf strides {1,2,4}^2, refinement, batch {1,2,3}, both providers; edge lengths between 2.5 PAF cells and 0.2 of the larger side (the scorer's distance penalty applies beyond, by design); 'well-separated' = under the stub's ideal PAF and the documented scoring rule the labelled pairing is the maximum-total assignment by a margin of 0.15 for every edge type (decided by the generator independently of the code; animals are removed from a frame until it holds, counted); non-trivial = frame with at least one animal")
     if cases:
         c = next((c for c in cases if c["animals"]), cases[0])
         res.sample(dict(cfg=c.get("full"), edges=c["edges"], animals=c["animals"][:2], preds=c["preds"][:2]))
